@@ -79,14 +79,23 @@ fn case1<T: Elem>(case: u64, spline: bool, args: &Args, ev: &mut Ev, log: &mut E
     } else if spline {
         // now and then every lane has the same kinds of end conditions (with its own values) ...
         let same_kinds = case % 15 == 10 || case % 15 == 4;
+        // ... and in reserved cases all lanes carry the same data, handed over as a broadcast
+        // (zero-stride) view, while every lane has its own end conditions
+        let broadcast = case % 15 == 13;
         let o = SplineOpts {
             max_n: 12,
             max_lane_rank: 5,
             allow_zero_lanes: true,
-            force_pair: if same_kinds { Some((3 + rng.below(2), 3 + rng.below(2))) } else { None },
+            force_pair: if same_kinds { Some((3 + rng.below(2), 3 + rng.below(2))) } else if broadcast { Some((rng.below(5), rng.below(5))) } else { None },
             ..Default::default()
         };
         let (mut spec, lab) = gen_spline_case::<T>(&mut rng, &o);
+        if broadcast && spec.n_lanes() > 1 && spec.x.is_some() {
+            vh::dynapi::equalise_lanes(&mut spec.data, 1);
+            spec.broadcast_lanes = true;
+            spec.sto = if rng.chance(0.5) { StoCombo::VV } else { StoCombo::VO };
+            ev.add("broadcast_lane_cases", 1);
+        }
         // ... in a tiny unit, so that the lanes' values differ by less than any fixed epsilon
         if same_kinds {
             let s = T::pow2(-(56 + rng.below(8) as i32));
